@@ -15,7 +15,7 @@ LEVEL = "model_checking"
 RULE = ("every sibling sequence of length <= 3 (quick) / <= 4 (thorough) over 4 plain items and 11 "
         "tagifiable kinds (-> block tag with dependency, inline tag, TagList of length 0/1/3, str, "
         "HTML, dependency, nested tagifiables inside a TagList / inside a tag, tagifiable+_repr_html_) "
-        "x 4 wrappers (top-level list, block parent, inline parent, nested). Non-trivial = sequence "
+        "x 5 wrappers (top-level list, block parent, inline parent, nested, user's own <html> root). Non-trivial = sequence "
         "with >= 1 expansion of length != 1. Distinct by construction.")
 ASSUMPTIONS = [
     "a tagifiable object returns a fully tagified expansion (protocol docstring); the harness's "
@@ -43,7 +43,7 @@ XK = [
     ["XR", B([T("xr")]), "<REPR/>"],
 ]
 ITEMS = PLAIN + XK
-WRAPPERS = ["top", "block", "inline", "nested"]
+WRAPPERS = ["top", "block", "inline", "nested", "html-root"]
 
 
 def expand(spec):
@@ -72,6 +72,9 @@ def wrap(items, wrapper):
         return B(items)
     if wrapper == "inline":
         return I(items)
+    if wrapper == "html-root":
+        # the document's sole content is the user's own <html>: hoisting must see the expansions
+        return ["E", "html", True, [], [["E", "head", True, [], []], ["E", "body", True, [], items]]]
     return B([I(items), T("tail"), B([])])
 
 
